@@ -798,11 +798,20 @@ class Monitor:
                     # ambiguous with a deferred enable(pulse_ms=0, equal powers): then take the hold reading (no
                     # software-pulse obligation is invented for what may be a legal hold)
                     for j, r2 in enumerate(lst):
-                        if r2["kind"] == "enable" and r2["a"].get("pulse_ms") == 0 and holds_allowed(env):
+                        if r2["kind"] != "enable" or r2["a"].get("pulse_ms") != 0 or not holds_allowed(env):
+                            continue
+                        pp2 = r2["a"].get("pulse_power")
+                        pp2 = pp2 if pp2 is not None else eff_pulse_power(env)
+                        hp2 = r2["a"].get("hold_power")
+                        hp2 = hp2 if hp2 is not None else eff_hold_power(env)
+                        if pp2 == pp and hp2 == rec["hold_power"]:     # only a deferred enable that would emit exactly this
                             return lst.pop(j)
                     return lst.pop(i)
             elif r["kind"] == "enable" and op == "enable" and rec["pulse_ms"] in mss and rec["pulse_power"] == pp:
-                return lst.pop(i)
+                hp = a.get("hold_power")
+                hp = hp if hp is not None else eff_hold_power(env)
+                if rec["hold_power"] == hp:
+                    return lst.pop(i)
         return None
 
     def _add_obligation(self, coil, kind, t_on, deadline):
